@@ -83,6 +83,43 @@ theorem cmdPhase_idle (s : Shell) (h : Idle s) : cmdPhase s = s := by
   subst h1 h2
   rfl
 
+/-! ### `set_error_state`: always reports (Method Status, `_last_error`); pauses only a run -/
+
+theorem setErr_lastErr (s : Shell) : (setErr s).lastErr = true := by unfold setErr; split <;> rfl
+theorem setErr_methodErr (s : Shell) : (setErr s).methodErr = true := by unfold setErr; split <;> rfl
+theorem setErr_started (s : Shell) : (setErr s).started = s.started := by unfold setErr; split <;> rfl
+theorem setErr_queue (s : Shell) : (setErr s).queue = s.queue := by unfold setErr; split <;> rfl
+theorem setErr_executing (s : Shell) : (setErr s).executing = s.executing := by unfold setErr; split <;> rfl
+theorem setErr_stopInst (s : Shell) : (setErr s).stopInst = s.stopInst := by unfold setErr; split <;> rfl
+theorem setErr_holding (s : Shell) : (setErr s).holding = s.holding := by unfold setErr; split <;> rfl
+theorem setErr_stopping (s : Shell) : (setErr s).stopping = s.stopping := by unfold setErr; split <;> rfl
+
+/-- a run is paused by the error -/
+theorem setErr_run (s : Shell) (h : s.started = true) :
+    (setErr s).paused = true ∧ (setErr s).sys = .paused := by
+  unfold setErr; rw [if_pos h]; exact ⟨rfl, rfl⟩
+
+/-- with no run active the run flags and System State are left alone -/
+theorem setErr_idle (s : Shell) (h : s.started = false) :
+    (setErr s).paused = s.paused ∧ (setErr s).sys = s.sys := by
+  unfold setErr; rw [h]; exact ⟨rfl, rfl⟩
+
+theorem setErr_errorState (s : Shell) (h : ErrorState s ∨ s.started = true) : ErrorState (setErr s) := by
+  refine ⟨setErr_lastErr s, setErr_methodErr s, ?_⟩
+  cases hs : s.started with
+  | true => exact setErr_run s hs
+  | false =>
+    rcases h with h | h
+    · rw [(setErr_idle s hs).1, (setErr_idle s hs).2]; exact ⟨h.2.2.1, h.2.2.2⟩
+    · rw [hs] at h; exact absurd h (by simp)
+
+theorem setErr_idleQ (s : Shell) (h : Idle s) : Idle (setErr s) := by
+  unfold Idle; rw [setErr_queue, setErr_executing]; exact h
+
+theorem runnable_started (s : Shell) (h : condHolds .runnable s = true) : s.started = true := by
+  simp only [condHolds, Bool.and_eq_true] at h
+  exact h.1.1.1
+
 structure Pres (P : Shell → Prop) : Prop where
   err : ∀ s, P s → P (setErr s)
   prog : ∀ s, P s → P { s with progStarted := true }
@@ -173,7 +210,7 @@ def PreInterp (s : Shell) : Prop := Idle s ∧ (ErrorState s ∨ condHolds .runn
 theorem errIdle_pres : Pres ErrIdle where
   err := by
     intro s h
-    exact ⟨⟨rfl, rfl, rfl, rfl⟩, h.2⟩
+    exact ⟨setErr_errorState s (Or.inl h.1), setErr_idleQ s h.2⟩
   prog := by
     intro s h
     exact ⟨h.1, h.2⟩
@@ -184,7 +221,10 @@ theorem errIdle_cmd (s : Shell) (h : ErrIdle s) : ErrIdle (cmdPhase s) := by
 theorem preInterp_pres : Pres PreInterp where
   err := by
     intro s h
-    exact ⟨h.1, Or.inl ⟨rfl, rfl, rfl, rfl⟩⟩
+    refine ⟨setErr_idleQ s h.1, Or.inl (setErr_errorState s ?_)⟩
+    rcases h.2 with h2 | h2
+    · exact Or.inl h2
+    · exact Or.inr (runnable_started s h2)
   prog := by
     intro s h
     exact ⟨h.1, h.2⟩
@@ -218,7 +258,7 @@ theorem stepPhase_hit (pl : Plan) (hf : pl.hf = .none) (acc : Acc) (n : Nat) (p 
   by_cases hrun : condHolds .runnable acc.s = true
   · rw [hrun]
     simp only [Bool.not_true, Bool.false_eq_true, if_false, hk, if_pos hc, hf, hh, runHandler, setErrorState]
-    exact ⟨⟨rfl, rfl, rfl, rfl⟩, h.1⟩
+    exact ⟨setErr_errorState _ (Or.inr (runnable_started _ hrun)), setErr_idleQ _ h.1⟩
   · have hE : ErrorState acc.s := by
       rcases h.2 with h2 | h2
       · exact h2
@@ -506,9 +546,16 @@ theorem stage_prog (k : Nat) (s : Shell) (h : Stage k s) : Stage k { s with prog
 
 theorem stage_err (k : Nat) (s : Shell) (h : Stage k s) : Stage k (setErr s) := by
   match k with
-  | 0 => exact ⟨h.1, h.2.1, h.2.2.1, by simp [setErr]⟩
-  | 1 => exact h
-  | _ + 2 => exact h
+  | 0 =>
+    refine ⟨by rw [setErr_queue]; exact h.1, by rw [setErr_executing]; exact h.2.1,
+            by rw [setErr_stopInst]; exact h.2.2.1, ?_⟩
+    cases hs : s.started with
+    | true => rw [(setErr_run s hs).2]; simp
+    | false => rw [(setErr_idle s hs).2]; exact h.2.2.2
+  | 1 => exact ⟨by rw [setErr_queue]; exact h.1, by rw [setErr_executing]; exact h.2.1,
+                by rw [setErr_stopInst]; exact h.2.2⟩
+  | _ + 2 => exact ⟨by rw [setErr_queue]; exact h.1, by rw [setErr_executing]; exact h.2.1,
+                    by rw [setErr_stopInst]; exact h.2.2.1, by rw [setErr_started]; exact h.2.2.2⟩
 
 theorem stage_cmd (k : Nat) (s : Shell) (h : Stage k s) : Stage (k + 1) (cmdPhase s) := by
   match k with
@@ -582,7 +629,131 @@ theorem cmdPhase_lastErr (s : Shell) : (cmdPhase s).lastErr = s.lastErr := by
 
 theorem tick_keeps_lastErr (ps : List Phase) (pl : Plan) (hg : pl.Guarded ps) (s : Shell)
     (h : s.lastErr = true) : (tick ps pl s).1.lastErr = true :=
-  tickFrom_pres (P := fun s => s.lastErr = true) ⟨fun _ _ => rfl, fun _ h => h⟩ pl hg.1
+  tickFrom_pres (P := fun s => s.lastErr = true) ⟨fun s _ => setErr_lastErr s, fun _ h => h⟩ pl hg.1
     (fun s h => by rw [cmdPhase_lastErr]; exact h) ps 0 { s := s } hg.2 h
+
+
+/-! ## an error while no run is active -/
+
+/-- no run: not started, not paused, System State Stopped, no request pending -/
+def NoRun (s : Shell) : Prop := s.started = false ∧ s.paused = false ∧ s.sys = .stopped ∧ Idle s
+
+/-- …with the error reported: Method Status Error, `_last_error` set -/
+def NoRunErr (s : Shell) : Prop := NoRun s ∧ s.methodErr = true ∧ s.lastErr = true
+
+instance (s : Shell) : Decidable (NoRun s) := by unfold NoRun; exact inferInstance
+instance (s : Shell) : Decidable (NoRunErr s) := by unfold NoRunErr; exact inferInstance
+
+theorem setErr_noRun (s : Shell) (h : NoRun s) : NoRunErr (setErr s) := by
+  obtain ⟨h1, h2, h3, h4⟩ := h
+  refine ⟨⟨by rw [setErr_started]; exact h1, ?_, ?_, setErr_idleQ s h4⟩, setErr_methodErr s, setErr_lastErr s⟩
+  · rw [(setErr_idle s h1).1]; exact h2
+  · rw [(setErr_idle s h1).2]; exact h3
+
+theorem noRun_pres : Pres NoRun where
+  err := fun s h => (setErr_noRun s h).1
+  prog := fun _ h => h
+
+theorem noRunErr_pres : Pres NoRunErr where
+  err := fun s h => setErr_noRun s h.1
+  prog := fun _ h => h
+
+theorem noRun_cmd (s : Shell) (h : NoRun s) : NoRun (cmdPhase s) := by
+  rw [cmdPhase_idle s h.2.2.2]; exact h
+
+theorem noRunErr_cmd (s : Shell) (h : NoRunErr s) : NoRunErr (cmdPhase s) := by
+  rw [cmdPhase_idle s h.1.2.2.2]; exact h
+
+/-- a phase of the tick's own body that runs unconditionally inside `try … except Exception: set_error_state` -/
+def isAlwaysGuarded (p : Phase) : Bool := p.cond == .always && p.handler == .setError && p.fn == "tick"
+
+/-- the plan makes such a phase raise -/
+def hitsAlways (pl : Plan) : Nat → List Phase → Bool
+  | _, [] => false
+  | n, p :: ps => (isAlwaysGuarded p && (pl.at n).isSome) || hitsAlways pl (n + 1) ps
+
+theorem stepPhase_hit_idle (pl : Plan) (hf : pl.hf = .none) (acc : Acc) (n : Nat) (p : Phase) (k : Fault)
+    (hi : isAlwaysGuarded p = true) (hk : pl.at n = some k) (hg : guardedFault p k = true)
+    (hr : acc.raised = false) (hs : acc.skip ≠ some "tick") (h : NoRun acc.s) :
+    NoRunErr (stepPhase pl acc n p).s := by
+  simp only [isAlwaysGuarded, Bool.and_eq_true, beq_iff_eq] at hi
+  obtain ⟨⟨hcond, hh⟩, hfn⟩ := hi
+  have hc : covers k p.catches = true := by
+    simp only [guardedFault, Bool.and_eq_true] at hg; exact hg.1
+  unfold stepPhase
+  rw [hr, hfn, hcond]
+  simp only [Bool.false_eq_true, if_false, if_neg hs, condHolds, Bool.not_true, hk, if_pos hc, hf, hh, runHandler,
+    setErrorState]
+  exact setErr_noRun _ h
+
+theorem tickFrom_idle_fault (pl : Plan) (hf : pl.hf = .none) :
+    ∀ (ps : List Phase) (n : Nat) (acc : Acc), guardedFrom pl n ps = true → noTickReturn ps = true →
+      hitsAlways pl n ps = true → acc.raised = false → acc.skip ≠ some "tick" → NoRun acc.s →
+      NoRunErr (tickFrom pl n ps acc).s := by
+  intro ps
+  induction ps with
+  | nil => intro n acc _ _ hh; simp [hitsAlways] at hh
+  | cons p ps ih =>
+    intro n acc hg hn hh hr hs h
+    simp only [guardedFrom, Bool.and_eq_true] at hg
+    simp only [noTickReturn, List.all_cons, Bool.and_eq_true] at hn
+    simp only [tickFrom]
+    have hgn : ∀ k, pl.at n = some k → guardedFault p k = true := by
+      intro k hk
+      have := hg.1
+      rw [hk] at this
+      exact this
+    by_cases hit : (isAlwaysGuarded p && (pl.at n).isSome) = true
+    · simp only [Bool.and_eq_true] at hit
+      obtain ⟨k, hk⟩ := Option.isSome_iff_exists.mp hit.2
+      apply tickFrom_pres noRunErr_pres pl hf noRunErr_cmd _ _ _ hg.2
+      exact stepPhase_hit_idle pl hf acc n p k hit.1 hk (hgn k hk) hr hs h
+    · simp only [hitsAlways, Bool.or_eq_true] at hh
+      have hh' : hitsAlways pl (n + 1) ps = true := by
+        rcases hh with h1 | h1
+        · exact absurd h1 hit
+        · exact h1
+      apply ih _ _ hg.2 hn.2 hh'
+      · exact stepPhase_noraise pl acc n p hf hgn hr
+      · apply stepPhase_skip pl acc n p "tick" hs
+        intro hret
+        have := hn.1
+        simp only [hret, Bool.not_true, Bool.false_or, bne_iff_ne, ne_eq] at this
+        exact this
+      · apply stepPhase_pres noRun_pres pl hf acc n p hgn _ h
+        intro _ s hs
+        unfold effect
+        split
+        · exact noRun_cmd s hs
+        · split
+          · exact hs
+          · exact hs
+
+/-- whatever guarded faults occur while no run is active: still no run, System State Stopped -/
+theorem tick_noRun (ps : List Phase) (pl : Plan) (hg : pl.Guarded ps) (s : Shell) (h : NoRun s) :
+    NoRun (tick ps pl s).1 :=
+  tickFrom_pres noRun_pres pl hg.1 noRun_cmd ps 0 { s := s } hg.2 h
+
+/-- Start after that: accepted (System State is Stopped), and the next tick starts the run with Method Status OK -/
+def StartQueued (s : Shell) : Prop :=
+  s.queue = [.start] ∧ s.executing = [] ∧ s.started = false
+
+def RunStarted (s : Shell) : Prop :=
+  s.started = true ∧ s.paused = false ∧ s.sys = .running ∧ s.methodErr = false ∧ Idle s
+
+instance (s : Shell) : Decidable (StartQueued s) := by unfold StartQueued; exact inferInstance
+instance (s : Shell) : Decidable (RunStarted s) := by unfold RunStarted; exact inferInstance
+
+theorem cmdPhase_startQueued (s : Shell) (h : StartQueued s) : RunStarted (cmdPhase s) := by
+  obtain ⟨h1, h2, h3⟩ := h
+  obtain ⟨running, started, paused, holding, stopping, sys, methodErr, lastErr, progStarted, queue, executing,
+    stopInst⟩ := s
+  simp only at h1 h2 h3
+  subst h1 h2 h3
+  exact ⟨rfl, rfl, rfl, rfl, rfl, rfl⟩
+
+theorem tick_start (ps : List Phase) (c : Nat) (wf : TableWF ps c) (pl : Plan) (hg : pl.Guarded ps)
+    (hn : pl.faults = []) (s : Shell) (h : StartQueued s) : RunStarted (tick ps pl s).1 :=
+  tick_stage ps c wf pl hg (at_nil pl hn c) (fun _ h => h) (fun _ h => h) (Or.inl hn) cmdPhase_startQueued s h
 
 end OPM.TickShell
